@@ -4,7 +4,7 @@ harness/rt/src/bin/drv.rs."""
 import random
 
 OPS = {1: "recv", 2: "send", 3: "blocking", 4: "write", 5: "poll", 6: "pop", 7: "dropkey",
-       8: "cancel", 9: "token", 10: "dropdriver", 11: "peer_read"}
+       8: "cancel", 9: "token", 10: "dropdriver", 11: "peer_read", 12: "send_zc", 13: "pop_multishot"}
 
 
 def gen_program(rng, mode):
@@ -34,8 +34,10 @@ def gen_program(rng, mode):
             k = rng.random()
             if k < 0.65:
                 steps.append((1, rng.randrange(n_res), rng.choice([1, 2, 3, 5, 8, 16])))
-            elif k < 0.85:
+            elif k < 0.78:
                 steps.append((2, rng.randrange(n_res), rng.choice([1, 3, 8, 40])))
+            elif k < 0.88 and drv == 0:
+                steps.append((12, rng.randrange(n_res), rng.choice([1, 8, 64])))
             else:
                 steps.append((3, rng.choice([0, 1, 5, 15]), 0))
             nslots += 1
@@ -48,6 +50,8 @@ def gen_program(rng, mode):
         elif what == "poll":
             steps.append((5, rng.choice([0, 0, 5, 10]), 0))
         elif what == "pop":
+            if rng.random() < 0.25:
+                steps.append((13, rng.randrange(nslots), 0))
             steps.append((6, rng.randrange(nslots), 0))
         elif what == "drop":
             steps.append((7, rng.randrange(nslots), 0))
